@@ -76,6 +76,73 @@ pub fn build_full(ch: &mut Ch) -> Shader {
             }
         }
     }
+    // the three generators draw names independently: make module-scope names unique up to case
+    // (a user constant equal to a generated parameter name is known finding K3a)
+    let mut used: std::collections::HashSet<String> = std::collections::HashSet::new();
+    for n in sh.structs.iter().map(|s| &s.name).chain(sh.globals.iter().map(|g| &g.name)).chain(sh.funcs.iter().map(|f| &f.name)).chain(sh.entries.iter().map(|e| &e.name)) {
+        used.insert(n.to_lowercase());
+    }
+    // a lower-case constant equal to a member name, a parameter name or the snake_case of a struct
+    // name is known finding K3d: keep constants distinct from those too
+    for sd in &sh.structs {
+        for m in &sd.members {
+            used.insert(m.name.to_lowercase());
+        }
+    }
+    for e in &sh.entries {
+        for p in &e.params {
+            let n = match p {
+                EParam::Struct { name, .. } | EParam::Builtin { name, .. } | EParam::Loc { name, .. } => name,
+            };
+            used.insert(n.to_lowercase());
+        }
+    }
+    let mut renames: Vec<(String, String)> = Vec::new();
+    for (i, c) in sh.consts.iter_mut().enumerate() {
+        if !used.insert(c.name.to_lowercase()) {
+            let new = format!("{}_c{i}", c.name);
+            renames.push((c.name.clone(), new.clone()));
+            used.insert(new.to_lowercase());
+            c.name = new;
+        }
+    }
+    // later constants may refer to a renamed one
+    for (old, new) in &renames {
+        for c in sh.consts.iter_mut() {
+            for pat in [format!(" = {old} "), format!(" = {old}")] {
+                if c.decl.ends_with(&pat) || c.decl.contains(&format!("{pat}+")) || c.decl.contains(&format!("{pat}*")) {
+                    c.decl = c.decl.replacen(old.as_str(), new.as_str(), 1);
+                    break;
+                }
+            }
+        }
+    }
+    for i in 0..sh.overrides.len() {
+        if !used.insert(sh.overrides[i].name.to_lowercase()) {
+            let new = format!("{}_o{i}", sh.overrides[i].name);
+            let old = sh.overrides[i].name.clone();
+            used.insert(new.to_lowercase());
+            sh.overrides[i].name = new.clone();
+            // defaults of later overrides may refer to the renamed one (`old * 0.5`, `old / 2u`)
+            for o2 in sh.overrides.iter_mut() {
+                if let Some(init) = &mut o2.init {
+                    if init.starts_with(&format!("{old} ")) {
+                        *init = init.replacen(old.as_str(), new.as_str(), 1);
+                    }
+                }
+            }
+            let fix = |t: &mut String| {
+                *t = t.replace(&format!("({old})"), &format!("({new})")).replace(&format!("+ {old};"), &format!("+ {new};"));
+            };
+            for e in sh.entries.iter_mut() {
+                for st in e.body.iter_mut() {
+                    if let Stmt::Raw(t) = st {
+                        fix(t);
+                    }
+                }
+            }
+        }
+    }
     sh
 }
 
